@@ -228,7 +228,7 @@ def run(ctx):
                 ops.append(("call", rnd.randrange(len(insts)), j))
         rnd.shuffle(ops)
         ops += [("call", i % len(insts), j) for i, j in enumerate(reversed(range(len(envs))))]
-        extra = [("copy", None, None)]
+        extra = [("copy", None, None)] * 3
         for _ in range(3):
             extra.append(("recompile-away", rnd.randrange(len(insts)), None))
             extra.append(("new", None, None))
@@ -275,7 +275,7 @@ def run(ctx):
                 # the original holds at that moment
                 import copy as _copy
 
-                k = rnd.randrange(len(insts))
+                k = rnd.choice(sorted(away)) if away and rnd.random() < 0.7 else rnd.randrange(len(insts))
                 try:
                     dup = (_copy.deepcopy if rnd.random() < 0.5 else _copy.copy)(insts[k][0])
                 except Exception:  # noqa: BLE001
@@ -286,6 +286,10 @@ def run(ctx):
                 if k in away:
                     away.add(len(insts) - 1)
                 ctx.count("in-process/copies")
+                cur_envs = envs if insts[k][1] == gp.text else other[2]
+                for env in rnd.sample(cur_envs, min(4, len(cur_envs))):
+                    if not record(insts[k][1], env, im.call(dup, env), serial[0], "copy-of-evaluator"):
+                        return
             elif op == "other":
                 oev, otext, osid = other[3][0]
                 if otext == other[0].text:
